@@ -297,7 +297,8 @@ impl<'a> Machine<'a> {
                     return Ok(()); // precondition (valid identifiers) no longer holds after shrinking: skip
                 }
                 let he = || Hyperedge { sources: ids(s), targets: ids(t) };
-                let (a, b) = self.ex.lib(&format!("{}:new_edge", id), || (self.real.new_edge(*l, he()), self.bare.new_edge(*l, he())))?;
+                // the struct form and the (sources, targets) tuple form of the interface argument
+                let (a, b) = self.ex.lib(&format!("{}:new_edge", id), || (self.real.new_edge(*l, he()), self.bare.new_edge(*l, (ids(s), ids(t)))))?;
                 if a.0 != ne || b.0 != ne {
                     return self.v("fresh-identifier", i, op, format!("returned edge ids {:?}/{:?}, next fresh index is {}", a, b, ne));
                 }
